@@ -13,6 +13,7 @@ import KcpVerif.Lemmas.SysDrainCons2
 import KcpVerif.Lemmas.SysWedgeRepaired
 import KcpVerif.Lemmas.SysDrainReturn
 import KcpVerif.Lemmas.SysDrainReturn2
+import KcpVerif.Lemmas.SysDrainTimer2
 /-! C02 — eventual delivery: a healed network always drains the backlog. -/
 namespace KcpVerif.Props
 open KcpVerif KcpVerif.Gen KcpVerif.Kcp KcpVerif.Live
@@ -902,5 +903,28 @@ example : (∃ gab gba, SysC.Cons ⟨SysC.wedgeA.snd_nxt, SysC.wedgeA.conv, 0, 0
     (SysC.netRun (Sys.init SysC.wedgeA SysC.wedgeB 0 1000) c02RetEvs).now ≤ 1010 :=
   ⟨SysC.cons_netRun c02RetEvs _ [] [] (SysC.cons_init _ _ 0 1000 false false (by decide)) (by decide),
    by decide, by decide, by decide, by decide⟩
+
+/-! ### phase A with its deadline, and the whole chain for a lost ACK
+
+`SysC.Keeps`: no `Input` touches `resendts` or `xmit` of a segment that stays in the send buffer;
+`Live.LiveInv` (kc02): the head of the send buffer is never flagged; `SysC.P1`: the head waits for its
+timer and A's next flush is at or before `T1`. -/
+
+open KcpVerif.Sys KcpVerif.SysC in
+/-- **The progress step for a head segment whose ACK was lost — all phases, with the bound.**  Any
+consistent state (`Cons`, after any fault history), A's head live (`LiveInv`), B flushing at least every
+`IB` ms (`Tm`), A every `IA` ms.  The head of A's send buffer has offset `U`, was sent before, its timer
+is at `R`, B has already delivered it (`P1`; `T1 ≥ R + IA` bounds A's next flush, e.g.
+`T1 = max(R, now) + IA`).  Then in EVERY later state of the fair system whose clock is past
+`T1 + D + IB + D`, A's `snd_una` is beyond `U`: the segment was retransmitted by A's first flush at or
+after `R` (earlier if a fast retransmission fired), re-acknowledged by B, and released — whatever
+datagrams were in flight, whatever else both sides did in between.  This is
+`resendts − now + interval_A + 2 D + interval_B` of the full statement.  `RunSmall`: fewer than 2^30
+segments, receive window below 2^30. -/
+theorem C02_progress_step_lost_ack {p : Par} {s : State} {gab gba : GLink} (h : Cons p s gab gba) (hl : Live.LiveInv s.A)
+    (U R T1 IA IB : Nat) (hT : R + IA ≤ T1 ∧ T1 < R + 2 ^ 31) (ht : Tm IB s) (h1 : P1 p U R T1 IA s)
+    (evs : List Ev) (hsm : RunSmall p.base s evs) (hnow : T1 + s.D + IB + s.D < (Sys.run s evs).now) :
+    U < o p.base (Sys.run s evs).A.snd_una :=
+  ret3_done h hl U R T1 IA IB hT ht h1 evs hsm hnow
 
 end KcpVerif.Props
